@@ -12,13 +12,26 @@ theorem stepRow_day (d : Defects) (sigs : Content) (room ent : Nat) (c : Cursor)
     (h : (stepRow d sigs room ent c r).2 = some r') : r'.day = r.day := by
   unfold stepRow at h
   split at h
-  · split at h
-    · split at h <;> (simp only [Option.some.injEq] at h; rw [← h])
-    · split at h <;> (simp only [Option.some.injEq] at h; rw [← h])
+  · repeat' split at h
+    all_goals (simp only [Option.some.injEq] at h; rw [← h])
   · simp only at h
     split at h
     · cases h
     · simp only [Option.some.injEq] at h; rw [← h]
+
+/-- the cursor after a row is the cursor before it or a cursor in the group -/
+theorem stepRow_grp (d : Defects) (sigs : Content) (room ent : Nat) (c : Cursor) (r : DayRow) :
+    (stepRow d sigs room ent c r).1.grp = c.grp ∨ (stepRow d sigs room ent c r).1.grp = some (room, ent) := by
+  unfold stepRow
+  split
+  · repeat' split
+    all_goals exact Or.inr rfl
+  · simp only
+    split
+    · split
+      · exact Or.inl rfl
+      · exact Or.inr rfl
+    · exact Or.inr rfl
 
 theorem walkRows_append (d : Defects) (sigs : Content) (room ent : Nat) (l1 l2 : List DayRow) (c : Cursor) :
     walkRows d sigs room ent c (l1 ++ l2) =
@@ -73,13 +86,11 @@ theorem walkRows_rows (l : List DayRow) (c : Cursor) :
         simp only [Bool.not_false, ↓reduceIte]
         constructor
         · intro r' hr'
-          split at hr'
-          · split at hr' <;> (simp only [Option.some.injEq] at hr'; subst hr'; simp [hd])
-          · split at hr' <;> (simp only [Option.some.injEq] at hr'; subst hr'; simp [hd])
+          repeat' split at hr'
+          all_goals (simp only [Option.some.injEq] at hr'; subst hr'; simp [hd])
         · intro _
-          split
-          · split <;> exact ⟨_, rfl⟩
-          · split <;> exact ⟨_, rfl⟩
+          repeat' split
+          all_goals exact ⟨_, rfl⟩
       | true =>
         simp only [Bool.not_true, Bool.false_eq_true, ↓reduceIte, h3]
         constructor
@@ -173,7 +184,8 @@ variable {d : Defects} (h1 : d.historySeedDropped = false) (h4 : d.lazyScan = fa
 
 include h1 h4 in
 /-- recomputing a group whose rows are `I1 ++ I2` starts with the recomputation of `I1` alone -/
-theorem recomputeGroup_prefix (sigs : Content) (c : Cursor) (room ent : Nat) (I1 I2 : List DayRow) :
+theorem recomputeGroup_prefix (sigs : Content) (c : Cursor) (room ent : Nat) (I1 I2 : List DayRow)
+    (hc : sameGroup c room ent = false) :
     ∃ R2, (recomputeGroup d sigs c { room, ent, rows := I1 ++ I2 }).2.rows =
         (recomputeGroup d sigs c { room, ent, rows := I1 }).2.rows ++ R2 ∧
       (R2.map (·.day)).Sublist (I2.map (·.day)) := by
@@ -192,8 +204,8 @@ theorem recomputeGroup_prefix (sigs : Content) (c : Cursor) (room ent : Nat) (I1
       cases hx : fromFirstDirty I1 with
       | nil => rw [hx] at hne1; cases hne1
       | cons _ _ => rfl
-    rw [recomputeGroup_static h1 h4 (g := { room, ent, rows := I1 ++ I2 }) hne,
-      recomputeGroup_static h1 h4 (g := { room, ent, rows := I1 }) hne1]
+    rw [recomputeGroup_static h1 h4 (g := { room, ent, rows := I1 ++ I2 }) hc hne,
+      recomputeGroup_static h1 h4 (g := { room, ent, rows := I1 }) hc hne1]
     simp only [e1, e2]
     rw [walkRows_append]
     simp only [List.append_assoc]
@@ -213,7 +225,7 @@ theorem recomputeGroup_prefix (sigs : Content) (c : Cursor) (room ent : Nat) (I1
       rw [recomputeGroup_clean (g := { room, ent, rows := I1 ++ I2 }) hre]
       exact ⟨I2, rfl, List.Sublist.refl _⟩
     | false =>
-      rw [recomputeGroup_static h1 h4 (g := { room, ent, rows := I1 ++ I2 }) hre]
+      rw [recomputeGroup_static h1 h4 (g := { room, ent, rows := I1 ++ I2 }) hc hre]
       simp only [e1, e2, List.append_assoc]
       refine ⟨_, rfl, ?_⟩
       rw [List.map_append]
@@ -237,16 +249,7 @@ theorem walkRows_grp (d : Defects) (sigs : Content) (room ent : Nat) (l : List D
   | nil => exact Or.inl rfl
   | cons a t ih =>
     simp only [walkRows]
-    have hs : (stepRow d sigs room ent c a).1.grp = c.grp ∨ (stepRow d sigs room ent c a).1.grp = some (room, ent) := by
-      unfold stepRow
-      split
-      · split
-        · split <;> exact Or.inr rfl
-        · split <;> exact Or.inr rfl
-      · simp only
-        split
-        · exact Or.inl rfl
-        · exact Or.inr rfl
+    have hs := stepRow_grp d sigs room ent c a
     rcases ih (stepRow d sigs room ent c a).1 with e | e
     · rcases hs with e2 | e2
       · exact Or.inl (e.trans e2)
@@ -275,16 +278,17 @@ section group
 variable {d : Defects} (h1 : d.historySeedDropped = false) (h2 : d.entityNotCompared = false)
   (h3 : d.emptyDayRow = false) (h4 : d.lazyScan = false)
 
-include h1 h4 in
 theorem recomputeGroup_key (sigs : Content) (c : Cursor) (g : Group) :
     (recomputeGroup d sigs c g).2.room = g.room ∧ (recomputeGroup d sigs c g).2.ent = g.ent := by
-  cases hre : (fromFirstDirty g.rows).isEmpty with
-  | true => rw [recomputeGroup_clean hre]; exact ⟨rfl, rfl⟩
-  | false => rw [recomputeGroup_static h1 h4 hre]; exact ⟨rfl, rfl⟩
+  unfold recomputeGroup
+  simp only
+  split
+  · exact ⟨rfl, rfl⟩
+  · split <;> exact ⟨rfl, rfl⟩
 
 include h1 h3 h4 in
 /-- the rows of the recomputed group, whatever is pending -/
-theorem recomputeGroup_rows {sigs : Content} (c : Cursor) (g : Group) :
+theorem recomputeGroup_rows {sigs : Content} (c : Cursor) (g : Group) (hc : sameGroup c g.room g.ent = false) :
     ((recomputeGroup d sigs c g).2.rows.map (·.day)).Sublist (g.rows.map (·.day)) ∧
     (∀ r' ∈ (recomputeGroup d sigs c g).2.rows, r'.dirty = false → ∃ r ∈ g.rows, r'.day = r.day ∧
       ((r.dirty = false ∧ r'.count = r.count ∧ r'.daily = r.daily) ∨ RowRight sigs g.room g.ent r')) ∧
@@ -298,7 +302,7 @@ theorem recomputeGroup_rows {sigs : Content} (c : Cursor) (g : Group) :
     intro r' hr' hd
     exact ⟨r', hr', rfl, Or.inl ⟨hd, rfl, rfl⟩⟩
   | false =>
-    rw [recomputeGroup_static h1 h4 hre]
+    rw [recomputeGroup_static h1 h4 hc hre]
     simp only
     obtain ⟨w1, w2⟩ := walkRows_rows h3 (d := d) (sigs := sigs) (room := g.room) (ent := g.ent)
       (fromFirstDirty g.rows) (seedCursor c g.room g.ent (cleanPrefix g.rows).getLast?)
@@ -337,8 +341,8 @@ include h1 h2 h3 h4 in
 /-- **the recomputation keeps the invariant of a group while marks are pending** -/
 theorem recomputeGroup_pending {sigs : Content} {P : Pending} {g : Group} {c : Cursor} (hg : GInv sigs P g)
     (hc : sameGroup c g.room g.ent = false) : GInv sigs P (recomputeGroup d sigs c g).2 := by
-  obtain ⟨k1, k2⟩ := recomputeGroup_key h1 h4 (d := d) sigs c g
-  obtain ⟨r1, r2, _, _⟩ := recomputeGroup_rows h1 h3 h4 (d := d) (sigs := sigs) c g
+  obtain ⟨k1, k2⟩ := recomputeGroup_key (d := d) sigs c g
+  obtain ⟨r1, r2, _, _⟩ := recomputeGroup_rows h1 h3 h4 (d := d) (sigs := sigs) c g hc
   refine ⟨?_, ?_, ?_⟩
   · rw [rowsSorted_iff]
     exact List.Pairwise.sublist r1 ((rowsSorted_iff _).mp hg.sorted)
@@ -436,13 +440,13 @@ theorem recomputeGroup_pending {sigs : Content} {P : Pending} {g : Group} {c : C
           have : r ∈ I1 := by simp only at he; rw [he]; simp [hr]
           exact hD day (Nat.le_trans hday (hI1 r this))
       obtain ⟨hdone, _⟩ := recomputeGroup_done h1 h2 h3 h4 (d := d) (c := c) hgT hc
-      obtain ⟨R2, hR2, hR2s⟩ := recomputeGroup_prefix h1 h4 (d := d) sigs c g.room g.ent I1 I2
+      obtain ⟨R2, hR2, hR2s⟩ := recomputeGroup_prefix h1 h4 (d := d) sigs c g.room g.ent I1 I2 hc
       have hgeq : ({ room := g.room, ent := g.ent, rows := I1 ++ I2 } : Group) = g := by
         rw [← hI]
       rw [hgeq] at hR2
       -- the truncated result is the `≤ D` part of the result
       obtain ⟨rt1, _, _, _⟩ := recomputeGroup_rows h1 h3 h4 (d := d) (sigs := sigs) c
-        { room := g.room, ent := g.ent, rows := I1 }
+        { room := g.room, ent := g.ent, rows := I1 } hc
       have hRT_le : ∀ x ∈ (recomputeGroup d sigs c { room := g.room, ent := g.ent, rows := I1 }).2.rows,
           x.day ≤ lastRow.day := by
         intro x hx
@@ -479,8 +483,8 @@ theorem recomputeFrom_pending {sigs : Content} {P : Pending} (log : Log) (c : Cu
     have hgt : ∀ b ∈ t, keyLt g.room g.ent b.room b.ent := (List.pairwise_cons.mp hs).1
     have hcg : sameGroup c g.room g.ent = false := (sameGroup_false_iff _ _ _).mpr (hc g List.mem_cons_self)
     have hgi := recomputeGroup_pending h1 h2 h3 h4 (d := d) (c := c) (hg g List.mem_cons_self) hcg
-    obtain ⟨k1, k2⟩ := recomputeGroup_key h1 h4 (d := d) sigs c g
-    obtain ⟨_, _, keeps, hgrp⟩ := recomputeGroup_rows h1 h3 h4 (d := d) (sigs := sigs) c g
+    obtain ⟨k1, k2⟩ := recomputeGroup_key (d := d) sigs c g
+    obtain ⟨_, _, keeps, hgrp⟩ := recomputeGroup_rows h1 h3 h4 (d := d) (sigs := sigs) c g hcg
     have hc' : ∀ x ∈ t, (recomputeGroup d sigs c g).1.grp ≠ some (x.room, x.ent) := by
       intro x hx
       rcases hgrp with e | e
